@@ -358,7 +358,9 @@ Definition req_clauses (r : req) : list bytes := map clause_text (spec_clauses (
 Definition req_marker_text (r : req) : bytes :=
   match r_marker r with None => [] | Some (m, wt) => trim (print_marker m wt) end.
 
-(* normalisation applied to the fields a splitter returns *)
+(* normalisation applied to the fields a splitter returns: white space is dropped, the
+   field is cut at the commas, empty items are dropped *)
 Definition nonempty (s : bytes) : bool := negb (is_nil s).
-Definition obs_extras (field : bytes) : list bytes := filter nonempty (map trim (split_on 44 field)).
-Definition obs_clauses (field : bytes) : list bytes := filter nonempty (map remove_ws (split_on 44 field)).
+Definition obs_list (field : bytes) : list bytes := filter nonempty (split_on 44 (remove_ws field)).
+Definition obs_extras (field : bytes) : list bytes := obs_list field.
+Definition obs_clauses (field : bytes) : list bytes := obs_list field.
